@@ -429,6 +429,8 @@ def link_or_data_split(F, S):
 
 def check(F, run, tier):
     S = Summaries(F)
+    from ..rules_archive import discarded_exception_obligations
+    discarded_exception_obligations(F, S, run)
     from ..rules_archive import noexcept_obligations
     noexcept_obligations(F, S, run)
     run.declined = DECLINED
